@@ -13,18 +13,18 @@ open Nstd.Generated.RcBodies
 /-- String: release = `dec; free`, a copy allocates the bytes seen through the argument with the capacity of that site -/
 def strCtx (st : St) (tid d s site : Nat) (arg : Option (Nat × List Nat)) : Ctx :=
   { st := st, tid := tid, d := d, s := s, relOf := fun v => [.dec v, .free],
-    allocOf := fun t => .alloc t tagStr (viewVal st s) (st.capTab site (viewVal st s).length), argInl := arg }
+    allocOf := fun t => [.alloc t tagStr (viewVal st s) (st.capTab site (viewVal st s).length)], argInl := arg }
 
 /-- Variant / Xml::Variant: release = `dec; free` (the destructor of the content runs at `free`: the cascade of `runC`) -/
 def boxCtx (st : St) (tid d s : Nat) : Ctx :=
   { st := st, tid := tid, d := d, s := s, relOf := fun v => [.dec v, .free],
-    allocOf := fun _ => .move d d, argInl := none }
+    allocOf := fun _ => [.move d d], argInl := none }
 
 /-- RefCount::Ptr: release = the model's release list of the slot in state `stR`, which includes the destructor of the
     pointee (the harness' Node releases its `next` handle) -/
 def ptrCtx (st stR : St) (tid d s : Nat) : Ctx :=
   { st := st, tid := tid, d := d, s := s, relOf := fun v => noClr (relP stR tid v relFuel),
-    allocOf := fun _ => .move d d, argInl := none }
+    allocOf := fun _ => [.move d d], argInl := none }
 
 theorem noClr_append (a b : List Act) : noClr (a ++ b) = noClr a ++ noClr b := by simp [noClr]
 
@@ -38,20 +38,20 @@ theorem tie_String_copy (st : St) (tid d s : Nat) (h : d ≠ s) :
     noClr (pre st tid (.sCopy d s)) =
       sem (strCtx st tid d s siteCopy none) String_dtor ++ sem (strCtx st tid d s siteCopy none) String_copy := by
   cases hs : st.slots s <;>
-    simp [pre, h, hs, rel, noClr, sem, exec, String_dtor, String_copy, strCtx, evalC, evalP, isBlkDen, isStaticDen, isNoneH,
+    simp [pre, h, hs, rel, noClr, sem, exec, isGuard, String_dtor, String_copy, strCtx, evalC, evalP, isBlkDen, isStaticDen, isNoneH,
       Handle.isBlk, setP, emit, viewVal, view]
 
 /-- `S[d] = S[s]` -/
 theorem tie_String_assign (st : St) (tid d s : Nat) :
     noClr (pre st tid (.sAssign d s)) = sem (strCtx st tid d s siteAssign none) String_assign := by
   cases hs : st.slots s <;>
-    simp [pre, hs, rel, shareAssign, noClr, sem, exec, String_assign, strCtx, evalC, evalP, isBlkDen, Handle.isBlk, setP, emit]
+    simp [pre, hs, rel, shareAssign, noClr, sem, exec, isGuard, String_assign, strCtx, evalC, evalP, isBlkDen, Handle.isBlk, setP, emit]
 
 /-- `S[d].~String(); new(&S[d]) String` -/
 theorem tie_String_dtor_default (st : St) (tid d : Nat) :
     noClr (pre st tid (.sDel d)) =
       sem (strCtx st tid d d siteCtor none) String_dtor ++ sem (strCtx st tid d d siteCtor none) String_default := by
-  simp [pre, rel, noClr, sem, exec, String_dtor, String_default, strCtx, evalP, setP, emit]
+  simp [pre, rel, noClr, sem, exec, isGuard, String_dtor, String_default, strCtx, evalP, setP, emit]
 
 /-- `S[d].attach(mem, len)` and `S[d].~String(); new(&S[d]) String("literal")` -/
 theorem tie_String_attach (st : St) (tid d : Nat) (bytes : List Nat) :
@@ -60,12 +60,12 @@ theorem tie_String_attach (st : St) (tid d : Nat) (bytes : List Nat) :
         sem (strCtx st tid d d siteCtor (some (tagStr, bytes))) String_dtor ++
           sem (strCtx st tid d d siteCtor (some (tagStr, bytes))) String_literal := by
   constructor <;>
-    simp [pre, rel, noClr, sem, exec, String_attach, String_dtor, String_literal, strCtx, evalP, setP, emit]
+    simp [pre, rel, noClr, sem, exec, isGuard, String_attach, String_dtor, String_literal, strCtx, evalP, setP, emit]
 
 /-- the same for attached memory that is not terminated (`sLitU`, Nested.lean) -/
 theorem tie_String_attach_unterminated (st : St) (tid d : Nat) (bytes : List Nat) :
     noClr (preN st tid (.sLitU d bytes)) = sem (strCtx st tid d d siteCtor (some (tagStrU, bytes))) String_attach := by
-  simp [preN, rel, noClr, sem, exec, String_attach, strCtx, evalP, setP, emit]
+  simp [preN, rel, noClr, sem, exec, isGuard, String_attach, strCtx, evalP, setP, emit]
 
 /-! ### Variant -/
 
@@ -73,21 +73,21 @@ theorem tie_String_attach_unterminated (st : St) (tid d : Nat) (bytes : List Nat
 theorem tie_Variant_copy (st : St) (tid d s : Nat) (h : d ≠ s) :
     noClr (pre st tid (.vCopy d s)) = sem (boxCtx st tid d s) Variant_dtor ++ sem (boxCtx st tid d s) Variant_copy := by
   cases hs : st.slots s <;>
-    simp [pre, h, hs, rel, noClr, sem, exec, Variant_dtor, Variant_copy, boxCtx, evalC, evalP, isBlkDen, Handle.isBlk, setP,
+    simp [pre, h, hs, rel, noClr, sem, exec, isGuard, Variant_dtor, Variant_copy, boxCtx, evalC, evalP, isBlkDen, Handle.isBlk, setP,
       emit, inlOf]
 
 /-- `V[d].clear()` -/
 theorem tie_Variant_clear (st : St) (tid d : Nat) :
     noClr (pre st tid (.vClear d)) = sem (boxCtx st tid d d) Variant_clear := by
-  simp [pre, rel, noClr, sem, exec, Variant_clear, boxCtx, evalP, setP, emit]
+  simp [pre, rel, noClr, sem, exec, isGuard, Variant_clear, boxCtx, evalP, setP, emit]
 
 /-- `V[d] = V[s]` (incl. the self test; the assigned value may live inside the payload that is released: increment first) -/
 theorem tie_Variant_assign (st : St) (tid d s : Nat) :
     noClr (pre st tid (.vAssign d s)) = sem (boxCtx st tid d s) Variant_assign := by
   by_cases h : d = s
-  · subst h; simp [pre, boxAssign, noClr, sem, exec, Variant_assign, boxCtx, evalC]
+  · subst h; simp [pre, boxAssign, noClr, sem, exec, isGuard, Variant_assign, boxCtx, evalC]
   · cases hs : st.slots s <;>
-      simp [pre, boxAssign, h, hs, rel, shareAssign, noClr, sem, exec, Variant_assign, boxCtx, evalC, evalP, isBlkDen,
+      simp [pre, boxAssign, h, hs, rel, shareAssign, noClr, sem, exec, isGuard, Variant_assign, boxCtx, evalC, evalP, isBlkDen,
         Handle.isBlk, setP, emit, inlOf]
 
 /-! ### Xml::Variant (its handles are never inline) -/
@@ -97,22 +97,214 @@ theorem tie_XmlVariant_copy (st : St) (tid d s : Nat) (h : d ≠ s) (hi : ∀ ta
   cases hs : st.slots s with
   | inl tag val => exact absurd hs (hi tag val)
   | _ =>
-    simp [pre, h, hs, rel, noClr, sem, exec, XmlVariant_dtor, XmlVariant_copy, boxCtx, evalC, evalP, isBlkDen, Handle.isBlk,
+    simp [pre, h, hs, rel, noClr, sem, exec, isGuard, XmlVariant_dtor, XmlVariant_copy, boxCtx, evalC, evalP, isBlkDen, Handle.isBlk,
       setP, emit]
 
 theorem tie_XmlVariant_clear (st : St) (tid d : Nat) :
     noClr (pre st tid (.xClear d)) = sem (boxCtx st tid d d) XmlVariant_clear := by
-  simp [pre, rel, noClr, sem, exec, XmlVariant_clear, boxCtx, evalP, setP, emit]
+  simp [pre, rel, noClr, sem, exec, isGuard, XmlVariant_clear, boxCtx, evalP, setP, emit]
 
 theorem tie_XmlVariant_assign (st : St) (tid d s : Nat) (hi : ∀ tag val, st.slots s ≠ .inl tag val) :
     noClr (pre st tid (.xAssign d s)) = sem (boxCtx st tid d s) XmlVariant_assign := by
   by_cases h : d = s
-  · subst h; simp [pre, boxAssign, noClr, sem, exec, XmlVariant_assign, boxCtx, evalC]
+  · subst h; simp [pre, boxAssign, noClr, sem, exec, isGuard, XmlVariant_assign, boxCtx, evalC]
   · cases hs : st.slots s with
     | inl tag val => exact absurd hs (hi tag val)
     | _ =>
-      simp [pre, boxAssign, h, hs, rel, shareAssign, noClr, sem, exec, XmlVariant_assign, boxCtx, evalC, evalP, isBlkDen,
+      simp [pre, boxAssign, h, hs, rel, shareAssign, noClr, sem, exec, isGuard, XmlVariant_assign, boxCtx, evalC, evalP, isBlkDen,
         Handle.isBlk, setP, emit]
+
+
+/-! ### bodies with the plain counter read: `pre` = the body up to and including the read (`mode 1`), `post` = the body from
+    the read on, decided by the outcome of the read in the state after `pre` (`mode 2`, `writing := isWriting s1 tid`) -/
+
+/-- `String::detach(copyLength, minCapacity)` as called with the new content `nv` and the capacity `cap` of the clone -/
+def detCtx (st : St) (tid d mode : Nat) (ok w : Bool) (nv : List Nat) (cap : Nat) : Ctx :=
+  { st := st, tid := tid, d := d, s := d, relOf := fun v => [.dec v, .free], allocOf := fun t => [.alloc t tagStr nv cap],
+    argInl := none, mode := mode, readOk := ok, writing := w, wacts := [.write nv] }
+
+theorem sem_detach_pre (st : St) (tid d : Nat) (ok w : Bool) (nv : List Nat) (cap : Nat) :
+    sem (detCtx st tid d 1 ok w nv cap) String_detach = [.readRef d ok] := by
+  simp [sem, exec, isGuard, String_detach, detCtx, emit]
+
+theorem sem_detach_post (st : St) (tid d : Nat) (ok w : Bool) (nv : List Nat) (cap : Nat) :
+    sem (detCtx st tid d 2 ok w nv cap) String_detach = if w then [.write nv] else cloneAllocFirst tid d tagStr nv cap := by
+  cases w <;> simp [sem, exec, isGuard, String_detach, detCtx, emit, evalC, evalP, setP, cloneAllocFirst]
+
+/-- every caller of `detach`: the model's `pre` is the translated body up to its plain read, the model's `post` the rest of the
+    translated body (in place: the guarded write; otherwise allocate, copy, release the OLD block, store — in this order) -/
+theorem tie_String_detach (st s1 : St) (tid d : Nat) :
+    (∀ bytes, pre st tid (.sAppend d bytes) = sem (detCtx st tid d 1 ((viewVal st d).length + bytes.length ≤ blkCap st d) false [] 0) String_detach
+      ∧ post s1 tid (.sAppend d bytes) = sem (detCtx s1 tid d 2 true (isWriting s1 tid) (viewVal s1 d ++ bytes)
+          (s1.capTab siteDetach (viewVal s1 d ++ bytes).length)) String_detach)
+    ∧ (∀ n, pre st tid (.sReserve d n) = sem (detCtx st tid d 1 (max n (viewVal st d).length ≤ blkCap st d) false [] 0) String_detach
+      ∧ post s1 tid (.sReserve d n) = sem (detCtx s1 tid d 2 true (isWriting s1 tid) (viewVal s1 d)
+          (s1.capTab siteDetach (max n (viewVal s1 d).length))) String_detach)
+    ∧ (∀ n, pre st tid (.sResize d n) = sem (detCtx st tid d 1 (n ≤ blkCap st d) false [] 0) String_detach
+      ∧ post s1 tid (.sResize d n) = sem (detCtx s1 tid d 2 true (isWriting s1 tid) ((viewVal s1 d).take n)
+          (s1.capTab siteDetach n)) String_detach)
+    ∧ (∀ x, pre st tid (.sPrintf d x) = sem (detCtx st tid d 1 (200 ≤ blkCap st d) false [] 0) String_detach
+      ∧ post s1 tid (.sPrintf d x) = sem (detCtx s1 tid d 2 true (isWriting s1 tid) (decDigits x)
+          (s1.capTab siteDetach 200)) String_detach)
+    ∧ (∀ nv, preN st tid (.sEditTo d nv) = sem (detCtx st tid d 1 true false [] 0) String_detach
+      ∧ postN s1 tid (.sEditTo d nv) = sem (detCtx s1 tid d 2 true (isWriting s1 tid) nv (s1.capTab siteDetach nv.length)) String_detach) := by
+  refine ⟨fun bytes => ⟨?_, ?_⟩, fun n => ⟨?_, ?_⟩, fun n => ⟨?_, ?_⟩, fun x => ⟨?_, ?_⟩, fun nv => ⟨?_, ?_⟩⟩ <;>
+    first
+    | (rw [sem_detach_pre]; try rfl)
+    | (rw [sem_detach_post]; try (simp only [post, postN]); try (cases isWriting s1 tid <;> simp))
+
+/-- `replace(char, char)`, `toLowerCase()`, `operator char*()`, `detach()` (`sEdit`): the same, with the edited bytes -/
+theorem tie_String_detach_edit (st s1 : St) (tid d kind a b : Nat) :
+    pre st tid (.sEdit d kind a b) = sem (detCtx st tid d 1 true false [] 0) String_detach
+    ∧ ∃ nv, post s1 tid (.sEdit d kind a b) = sem (detCtx s1 tid d 2 true (isWriting s1 tid) nv (s1.capTab siteDetach nv.length)) String_detach := by
+  refine ⟨by rw [sem_detach_pre]; try rfl, ?_⟩
+  refine ⟨if kind = 0 then (viewVal s1 d).map (fun c => if c = a then b else c) else if kind = 1 then (viewVal s1 d).map lowerByte
+    else viewVal s1 d, ?_⟩
+  rw [sem_detach_post]; try (simp only [post])
+  try (cases isWriting s1 tid <;> simp)
+
+/-- `prepend`: `String copy(*this)` (the translated copy constructor on the temporary), `detach`, `~copy` -/
+theorem tie_String_prepend (st s1 : St) (tid d : Nat) (bytes : List Nat) :
+    pre st tid (.sPrepend d bytes) = sem (strCtx st tid (tmpU tid) d siteCopy none) String_copy ++
+        sem (detCtx st tid d 1 ((viewVal st d).length + bytes.length ≤ blkCap st d) false [] 0) String_detach
+    ∧ noClr (post s1 tid (.sPrepend d bytes)) =
+        sem (detCtx s1 tid d 2 true (isWriting s1 tid) (bytes ++ viewVal s1 d) (s1.capTab siteDetach (bytes ++ viewVal s1 d).length)) String_detach
+          ++ sem (strCtx s1 tid (tmpU tid) (tmpU tid) siteCopy none) String_dtor := by
+  constructor
+  · rw [sem_detach_pre]
+    cases hs : st.slots d <;>
+      simp [pre, hs, sem, exec, isGuard, String_copy, strCtx, evalC, evalP, isBlkDen, isStaticDen, isNoneH, Handle.isBlk, setP, emit,
+        viewVal, view]
+  · rw [sem_detach_post]; simp only [post]
+    cases isWriting s1 tid <;>
+      simp [rel, noClr, cloneAllocFirst, sem, exec, isGuard, String_dtor, strCtx, evalP, emit]
+
+/-- `String::clear()` -/
+theorem tie_String_clear (st s1 : St) (tid d : Nat) :
+    pre st tid (.sClear d) = sem (detCtx st tid d 1 true false [] 0) String_clear
+    ∧ noClr (post s1 tid (.sClear d)) = sem (detCtx s1 tid d 2 true (isWriting s1 tid) [] 0) String_clear := by
+  constructor
+  · simp [pre, sem, exec, isGuard, String_clear, detCtx, emit]
+  · cases h : isWriting s1 tid <;>
+      simp [post, h, rel, noClr, sem, exec, isGuard, String_clear, detCtx, emit, evalC, evalP, setP]
+
+/-- mutable accessors and `operator=(T)` of Variant / Xml::Variant: the read decides between the guarded in-place
+    modification `wacts` (through the returned reference / the assignment of the content) and the clone `allocOf` -/
+def accCtx (st : St) (tid d mode : Nat) (ok w tyOk : Bool) (wacts : List Act) (allocOf : Nat → List Act) : Ctx :=
+  { st := st, tid := tid, d := d, s := d, relOf := fun v => [.dec v, .free], allocOf := allocOf,
+    argInl := none, mode := mode, readOk := ok, writing := w, typeOk := tyOk, wacts := wacts }
+
+/-- the four mutable accessors `toString()`, `toList()`, `toArray()`, `toMap()`: allocate and copy-construct the content FIRST,
+    then `clear()`, then store (seeded C09-5 / C07-5: `clear()` before the copy) -/
+theorem sem_accessor (st : St) (tid d : Nat) (ok w tyOk : Bool) (wacts : List Act) (allocOf : Nat → List Act) :
+    ∀ body, body ∈ [Variant_toString, Variant_toList, Variant_toArray, Variant_toMap] →
+      sem (accCtx st tid d 1 ok w tyOk wacts allocOf) body = [.readRef d ok]
+      ∧ sem (accCtx st tid d 2 ok w tyOk wacts allocOf) body =
+          if w then wacts else allocOf (tmpT tid) ++ [.dec d, .free, .move d (tmpT tid)] := by
+  intro body hb
+  simp only [List.mem_cons, List.not_mem_nil, or_false] at hb
+  rcases hb with rfl | rfl | rfl | rfl <;> cases w <;>
+    simp [sem, exec, isGuard, Variant_toString, Variant_toList, Variant_toArray, Variant_toMap, accCtx, emit, evalC, evalP, setP]
+
+/-- `operator=(const String&/List&/Array&/HashMap&)` of Variant and `operator=(const String&)` of Xml::Variant: `clear()`, then
+    a fresh box -/
+theorem sem_assignT (st : St) (tid d : Nat) (ok w tyOk : Bool) (wacts : List Act) (allocOf : Nat → List Act) :
+    ∀ body, body ∈ [Variant_assignString, Variant_assignList, Variant_assignArray, Variant_assignMap, XmlVariant_assignString] →
+      sem (accCtx st tid d 1 ok w tyOk wacts allocOf) body = [.readRef d ok]
+      ∧ sem (accCtx st tid d 2 ok w tyOk wacts allocOf) body = if w then wacts else [.dec d, .free] ++ allocOf d := by
+  intro body hb
+  simp only [List.mem_cons, List.not_mem_nil, or_false] at hb
+  rcases hb with rfl | rfl | rfl | rfl | rfl <;> cases w <;>
+    simp [sem, exec, isGuard, Variant_assignString, Variant_assignList, Variant_assignArray, Variant_assignMap, XmlVariant_assignString,
+      accCtx, emit, evalC, evalP, setP]
+
+/-- `Xml::Variant::toElement()` (three branches, repaired by D16) -/
+theorem sem_toElement (st : St) (tid d : Nat) (ok w tyOk : Bool) (wacts : List Act) (allocOf : Nat → List Act) :
+    sem (accCtx st tid d 1 ok w tyOk wacts allocOf) XmlVariant_toElement = [.readRef d ok]
+    ∧ sem (accCtx st tid d 2 ok w tyOk wacts allocOf) XmlVariant_toElement =
+        if w then wacts else if tyOk then allocOf (tmpT tid) ++ [.dec d, .free, .move d (tmpT tid)] else [.dec d, .free] ++ allocOf d := by
+  cases w <;> cases tyOk <;>
+    simp [sem, exec, isGuard, XmlVariant_toElement, accCtx, emit, evalC, evalP, setP]
+
+/-- `V[d].toString().append(bytes)` and `V[d].toMap().append(k, x)` (flat payloads) -/
+theorem tie_Variant_toString_toMap (st s1 : St) (tid d : Nat) :
+    (∀ bytes, ∃ wa al, pre st tid (.vAppStr d bytes) = sem (accCtx st tid d 1 (blkTag st d == some tagVStr) false true wa al) Variant_toString
+        ∧ post s1 tid (.vAppStr d bytes) = sem (accCtx s1 tid d 2 true (isWriting s1 tid) true wa al) Variant_toString
+        ∧ wa = [.write (viewVal s1 d ++ bytes)] ∧ ∃ v, al = fun t => [.alloc t tagVStr v 0])
+    ∧ (∀ k x, ∃ wa al, pre st tid (.vPutM d k x) = sem (accCtx st tid d 1 (blkTag st d == some tagVMap) false true wa al) Variant_toMap
+        ∧ post s1 tid (.vPutM d k x) = sem (accCtx s1 tid d 2 true (isWriting s1 tid) true wa al) Variant_toMap
+        ∧ wa = [.write (mapPut (viewVal s1 d) k x)] ∧ ∃ v, al = fun t => [.alloc t tagVMap v 0]) := by
+  constructor
+  · intro bytes
+    refine ⟨[.write (viewVal s1 d ++ bytes)], fun t => [.alloc t tagVStr ((if blkTag s1 d == some tagVStr then viewVal s1 d
+      else if inlTag s1 d == some tagVInt then decDigits ((viewVal s1 d).headD 0) else []) ++ bytes) 0], ?_, ?_, rfl, _, rfl⟩
+    · rw [(sem_accessor _ _ _ _ _ _ _ _ Variant_toString (by simp)).1]; try rfl
+    · rw [(sem_accessor _ _ _ _ _ _ _ _ Variant_toString (by simp)).2]; simp only [post]
+      cases isWriting s1 tid <;> simp [cloneAllocFirst]
+  · intro k x
+    refine ⟨[.write (mapPut (viewVal s1 d) k x)], fun t => [.alloc t tagVMap (mapPut (if blkTag s1 d == some tagVMap then viewVal s1 d else []) k x) 0],
+      ?_, ?_, rfl, _, rfl⟩
+    · rw [(sem_accessor _ _ _ _ _ _ _ _ Variant_toMap (by simp)).1]; try rfl
+    · rw [(sem_accessor _ _ _ _ _ _ _ _ Variant_toMap (by simp)).2]; simp only [post]
+      cases isWriting s1 tid <;> simp [cloneAllocFirst]
+
+/-- `V[d].toList().append(Variant(x))` / `toArray()` on payloads with boxed elements (`postN`): the clone is `alloc` followed by
+    the copy constructors of the elements (`copyEmb`), all BEFORE the release of the old payload -/
+theorem tie_Variant_toList_toArray (st s1 : St) (tid d x : Nat) :
+    (∃ wa al, preN st tid (.flat (.vPush d x)) = sem (accCtx st tid d 1 (blkTag st d == some tagVList) false true wa al) Variant_toList
+        ∧ postN s1 tid (.flat (.vPush d x)) = sem (accCtx s1 tid d 2 true (isWriting s1 tid) true wa al) Variant_toList
+        ∧ al = fun t => match blkOfTag s1 d tagVList with
+            | some c => [.alloc t tagVList (viewVal s1 d ++ [x]) 0] ++ copyEmb tid c d s1.next t (embKs s1 c)
+            | none => [.alloc t tagVList [x] 0])
+    ∧ (∃ wa al, preN st tid (.flat (.vPushA d x)) = sem (accCtx st tid d 1 (blkTag st d == some tagVArr) false true wa al) Variant_toArray
+        ∧ postN s1 tid (.flat (.vPushA d x)) = sem (accCtx s1 tid d 2 true (isWriting s1 tid) true wa al) Variant_toArray
+        ∧ al = fun t => match blkOfTag s1 d tagVArr with
+            | some c => [.alloc t tagVArr (viewVal s1 d ++ [x]) 0] ++ copyEmb tid c d s1.next t (embKs s1 c)
+            | none => [.alloc t tagVArr [x] 0]) := by
+  constructor
+  · refine ⟨match blkOfTag s1 d tagVList with | some _ => [.write (viewVal s1 d ++ [x])] | none => [.write (viewVal s1 d)], _, ?_, ?_, rfl⟩
+    · rw [(sem_accessor _ _ _ _ _ _ _ _ Variant_toList (by simp)).1]; try rfl
+    · rw [(sem_accessor _ _ _ _ _ _ _ _ Variant_toList (by simp)).2]; simp only [postN, appendN, storeOpt]
+      cases isWriting s1 tid <;> cases blkOfTag s1 d tagVList <;> simp
+  · refine ⟨match blkOfTag s1 d tagVArr with | some _ => [.write (viewVal s1 d ++ [x])] | none => [.write (viewVal s1 d)], _, ?_, ?_, rfl⟩
+    · rw [(sem_accessor _ _ _ _ _ _ _ _ Variant_toArray (by simp)).1]; try rfl
+    · rw [(sem_accessor _ _ _ _ _ _ _ _ Variant_toArray (by simp)).2]; simp only [postN, appendN, storeOpt]
+      cases isWriting s1 tid <;> cases blkOfTag s1 d tagVArr <;> simp
+
+/-- `V[d] = String / List / Array / HashMap` and `X[d] = String`: in place (the container assignment releases the old boxed
+    elements: `dropEmb`) or `clear()` and a fresh box -/
+theorem tie_assignT (st s1 : St) (tid d : Nat) :
+    (∀ bytes, ∃ wa, pre st tid (.vSetStr d bytes) = sem (accCtx st tid d 1 (blkTag st d == some tagVStr) false true wa (fun t => [.alloc t tagVStr bytes 0])) Variant_assignString
+        ∧ post s1 tid (.vSetStr d bytes) = sem (accCtx s1 tid d 2 true (isWriting s1 tid) true wa (fun t => [.alloc t tagVStr bytes 0])) Variant_assignString)
+    ∧ (∀ k x, ∃ wa, pre st tid (.vSetMap d k x) = sem (accCtx st tid d 1 (blkTag st d == some tagVMap) false true wa (fun t => [.alloc t tagVMap [k, x] 0])) Variant_assignMap
+        ∧ post s1 tid (.vSetMap d k x) = sem (accCtx s1 tid d 2 true (isWriting s1 tid) true wa (fun t => [.alloc t tagVMap [k, x] 0])) Variant_assignMap)
+    ∧ (∀ x, ∃ wa, preN st tid (.flat (.vSetList d x)) = sem (accCtx st tid d 1 (blkTag st d == some tagVList) false true wa (fun t => [.alloc t tagVList [x] 0])) Variant_assignList
+        ∧ postN s1 tid (.flat (.vSetList d x)) = sem (accCtx s1 tid d 2 true (isWriting s1 tid) true wa (fun t => [.alloc t tagVList [x] 0])) Variant_assignList)
+    ∧ (∀ x, ∃ wa, preN st tid (.flat (.vSetArr d x)) = sem (accCtx st tid d 1 (blkTag st d == some tagVArr) false true wa (fun t => [.alloc t tagVArr [x] 0])) Variant_assignArray
+        ∧ postN s1 tid (.flat (.vSetArr d x)) = sem (accCtx s1 tid d 2 true (isWriting s1 tid) true wa (fun t => [.alloc t tagVArr [x] 0])) Variant_assignArray)
+    ∧ (∀ bytes, ∃ wa, pre st tid (.xSetStr d bytes) = sem (accCtx st tid d 1 (blkTag st d == some tagXText) false true wa (fun t => [.alloc t tagXText bytes 0])) XmlVariant_assignString
+        ∧ post s1 tid (.xSetStr d bytes) = sem (accCtx s1 tid d 2 true (isWriting s1 tid) true wa (fun t => [.alloc t tagXText bytes 0])) XmlVariant_assignString) := by
+  refine ⟨fun bytes => ⟨[.write bytes], ?_, ?_⟩, fun k x => ⟨[.write [k, x]], ?_, ?_⟩,
+    fun x => ⟨[.write [x]] ++ (match blkOfTag s1 d tagVList with | some c => dropEmb tid c d (embKs s1 c) | none => []), ?_, ?_⟩,
+    fun x => ⟨[.write [x]] ++ (match blkOfTag s1 d tagVArr with | some c => dropEmb tid c d (embKs s1 c) | none => []), ?_, ?_⟩,
+    fun bytes => ⟨[.write bytes], ?_, ?_⟩⟩ <;>
+  first
+  | (rw [(sem_assignT _ _ _ _ _ _ _ _ _ (by simp)).1]; try rfl)
+  | (rw [(sem_assignT _ _ _ _ _ _ _ _ _ (by simp)).2]; simp only [post, postN]
+     cases isWriting s1 tid <;> simp [cloneReleaseFirst] <;> try rfl)
+
+/-- `X[d].toElement().type = bytes` (`postN`: the clone of a shared element copies the children before the release) -/
+theorem tie_XmlVariant_toElement (st s1 : St) (tid d : Nat) (bytes : List Nat) :
+    ∃ al, preN st tid (.flat (.xElem d bytes)) = sem (accCtx st tid d 1 (blkTag st d == some tagXElem) false true [.write bytes] al) XmlVariant_toElement
+      ∧ postN s1 tid (.flat (.xElem d bytes)) =
+          sem (accCtx s1 tid d 2 true (isWriting s1 tid) (blkOfTag s1 d tagXElem).isSome [.write bytes] al) XmlVariant_toElement
+      ∧ al = fun t => match blkOfTag s1 d tagXElem with
+          | some c => [.alloc t tagXElem bytes 0] ++ copyEmb tid c d s1.next t (embKs s1 c)
+          | none => [.alloc t tagXElem bytes 0] := by
+  refine ⟨_, ?_, ?_, rfl⟩
+  · rw [(sem_toElement _ _ _ _ _ _ _ _).1]; try rfl
+  · rw [(sem_toElement _ _ _ _ _ _ _ _).2]; simp only [postN]
+    cases isWriting s1 tid <;> cases blkOfTag s1 d tagXElem <;> simp [cloneReleaseFirst]
 
 /-! ### RefCount::Ptr (its handles are never inline) -/
 
@@ -126,7 +318,7 @@ theorem tie_Ptr_copy (st : St) (tid d s : Nat) (h : d ≠ s) (hi : ∀ tag val, 
   | inl tag val => exact absurd hs (hi tag val)
   | _ =>
     rcases hb with rfl | rfl | rfl <;>
-      simp [pre, h, hs, noClr_append, sem, exec, Ptr_dtor, Ptr_copy, Ptr_convert, Ptr_fromRaw, ptrCtx, evalC, evalP, isBlkDen,
+      simp [pre, h, hs, noClr_append, sem, exec, isGuard, Ptr_dtor, Ptr_copy, Ptr_convert, Ptr_fromRaw, ptrCtx, evalC, evalP, isBlkDen,
         Handle.isBlk, setP, emit, isNoneH, noClr]
 
 /-- `P[d] = P[s]` for a non-null source (all three `operator=`): increment FIRST, then release (D37), then the stores -/
@@ -137,7 +329,7 @@ theorem tie_Ptr_assign_counted (st st1 : St) (tid d s b : Nat) (hs : st.slots s 
   intro body hb
   simp only [List.mem_cons, List.not_mem_nil, or_false] at hb
   rcases hb with rfl | rfl | rfl <;>
-    simp [pre, ptrAssign, hs, hinc, noClr_append, sem, exec, Ptr_assign, Ptr_assignConvert, Ptr_assignRaw, ptrCtx, evalC, evalP,
+    simp [pre, ptrAssign, hs, hinc, noClr_append, sem, exec, isGuard, Ptr_assign, Ptr_assignConvert, Ptr_assignRaw, ptrCtx, evalC, evalP,
       isBlkDen, Handle.isBlk, setP, emit, noClr]
 
 /-- `P[d] = P[s]` for a null source, `P[d] = Ptr()` -/
@@ -148,14 +340,14 @@ theorem tie_Ptr_assign_null (st : St) (tid d s : Nat) (hs : st.slots s = .none) 
   intro body hb
   simp only [List.mem_cons, List.not_mem_nil, or_false] at hb
   rcases hb with rfl | rfl | rfl <;>
-    simp [pre, ptrAssign, hs, sem, exec, Ptr_assign, Ptr_assignConvert, Ptr_assignRaw, ptrCtx, evalC, evalP,
+    simp [pre, ptrAssign, hs, sem, exec, isGuard, Ptr_assign, Ptr_assignConvert, Ptr_assignRaw, ptrCtx, evalC, evalP,
       isBlkDen, Handle.isBlk, setP, emit, isNoneH]
 
 /-- `P[a].swap(P[b])`: both fields exchanged (D14), no counter touched -/
 theorem tie_Ptr_swap (st : St) (tid a b : Nat) :
     pre st tid (.pSwap a b) = sem (ptrCtx st st tid a b) Ptr_swap ∧ fieldsMirror Ptr_swap = true := by
   refine ⟨?_, by decide⟩
-  simp [pre, sem, exec, Ptr_swap, ptrCtx, evalP, setP]
+  simp [pre, sem, exec, isGuard, Ptr_swap, ptrCtx, evalP, setP]
 
 /-- every RefCount::Ptr body treats the uncounted field `obj` exactly like the counted field `refObj` -/
 theorem tie_Ptr_fields_mirror :
